@@ -402,6 +402,17 @@ func (in *Interp) doAssert(id string, c *Term, msg string) {
 			in.incomplete("solver unknown at assert " + id)
 		}
 	}
+	if violated && in.env != nil && len(in.env.ticks) > 0 {
+		// prefer a counterexample in which consecutive clock readings are not spread by the model's
+		// free ticks (the native replay cannot steer them; explicit sleeps it can)
+		pref := nc
+		for _, t := range in.env.ticks {
+			pref = in.ts.And(pref, in.ts.Eq(t, in.ts.Const(64, 0)))
+		}
+		if in.checkWith(pref) == Sat {
+			in.fetchFor(pref)
+		}
+	}
 	if violated {
 		v := Violation{Unit: in.unit, AssertID: id, Msg: msg, Nondet: in.modelValues(), Decs: append([]Decision(nil), in.taken...)}
 		if in.env != nil {
